@@ -12,3 +12,5 @@ type yieldVisit struct {
 func yieldVisits() []yieldVisit { return nil }
 
 func installYields(uint64, float64, ...string) func() { return func() {} }
+
+func setYieldAction(string, func(string)) {}
